@@ -315,10 +315,11 @@ def shape_rule(ctx, short: str) -> None:
     if ok_reshape and ok_shape:
         from ..defuse import norm_chains
 
-        reshaped = sorted({nm for ch in norm_chains(shape_arg.value) for nm, _c in ch if nm in ("flatten", "ravel", "reshape", "squeeze", "T", "transpose", "swapaxes")})
+        reshaped = sorted({nm for ch in norm_chains(shape_arg.value) for nm, _c in ch if nm in ("flatten", "ravel", "reshape", "squeeze", "T", "transpose", "swapaxes", "atleast_1d", "atleast_2d")}
+                          | {f"{nm}(ndmin=..)" for ch in norm_chains(shape_arg.value) for nm, c_ in ch if any(k.arg == "ndmin" for k in getattr(c_, "keywords", []))})
         ctx.rep.check(not reshaped, rule, c + "/shape-source", "the shape is read from the argument as given",
                       f"the shape is read from `{show(shape_arg.value)[:50]}`, i.e. after {reshaped}: the result no longer has the shape of the given array (a 2-D argument comes back 1-D / transposed)", where=w)
-        conv = any(nm in ("array", "asarray", "asanyarray", "atleast_1d", "atleast_2d") for ch in norm_chains(shape_arg.value) for nm, _c in ch)
+        conv = any(nm in ("array", "asarray", "asanyarray") for ch in norm_chains(shape_arg.value) for nm, _c in ch)
         ctx.rep.check(conv, rule, c + "/array-like", "the argument is converted to an array before its shape is read",
                       f"`.shape` is read from `{show(shape_arg.value)[:40]}`, the argument as given: a list of well IDs (any array-like is accepted by the siblings) has no shape - the call fails", where=w)
     # elements iterated: the flattened array
